@@ -16,6 +16,8 @@ from __future__ import annotations
 
 import collections
 import errno
+import hashlib
+import json
 import os
 import pickle
 import struct
@@ -355,7 +357,7 @@ class SimAsyncResult:
         self._ok = True
         self._value: Any = None
 
-    def _ensure(self) -> None:
+    def _run_now(self) -> None:
         if not self._done:
             try:
                 self._value = self._run()
@@ -363,6 +365,16 @@ class SimAsyncResult:
                 self._ok = False
                 self._value = exc
             self._done = True
+
+    def _ensure(self) -> None:
+        # tasks submitted one by one finish in an order the scheduler decides: when a result is asked for, pending
+        # tasks of the pool run in tape order until the one asked for is done (callbacks fire in that order)
+        pool = self._pool
+        while not self._done:
+            pend = [a for a in getattr(pool, "_pending_async", []) if not a._done]
+            if self not in pend:
+                pend.append(self)
+            pend[pool._choose(len(pend), "async_next")]._run_now()
 
     def get(self, timeout: Any = None) -> Any:
         self._ensure()
@@ -717,31 +729,430 @@ class SimContext:
         raise SimHarnessError(f"multiprocessing context attribute {name!r} is not simulated")
 
 
-class SimExecutor:
-    """Facade for concurrent.futures.ProcessPoolExecutor on the same core."""
+_COMPLETION_SEQ = [0]
+
+
+class SimFuture:
+    """Future of a simulated executor: its task runs when the scheduler picks it, which happens when some result
+    of the executor is waited for (result / exception / as_completed / wait / shutdown)."""
+
+    def __init__(self, ex: Any, run: Callable[[], Any]) -> None:
+        self._ex = ex
+        self._run = run
+        self._state = "PENDING"
+        self._value: Any = None
+        self._exc: Optional[BaseException] = None
+        self._callbacks: List[Callable] = []
+        self._seq = -1
+
+    def _run_now(self) -> None:
+        if self._state != "PENDING":
+            return
+        self._state = "RUNNING"
+        try:
+            self._value = self._run()
+        except BaseException as exc:  # noqa: BLE001
+            self._exc = exc
+        self._state = "FINISHED"
+        _COMPLETION_SEQ[0] += 1
+        self._seq = _COMPLETION_SEQ[0]
+        for cb in self._callbacks:
+            try:
+                cb(self)
+            except Exception:  # noqa: BLE001 - as the real Future: logged and ignored
+                pass
+
+    def _drive(self) -> None:
+        while self._state == "PENDING":
+            self._ex._step()
+
+    def result(self, timeout: Any = None) -> Any:
+        if self._state == "CANCELLED":
+            import concurrent.futures as cf
+            raise cf.CancelledError()
+        self._drive()
+        if self._exc is not None:
+            raise self._exc
+        return self._value
+
+    def exception(self, timeout: Any = None) -> Optional[BaseException]:
+        if self._state == "CANCELLED":
+            import concurrent.futures as cf
+            raise cf.CancelledError()
+        self._drive()
+        return self._exc
+
+    def done(self) -> bool:
+        return self._state in ("FINISHED", "CANCELLED")
+
+    def running(self) -> bool:
+        return self._state == "RUNNING"
+
+    def cancelled(self) -> bool:
+        return self._state == "CANCELLED"
+
+    def cancel(self) -> bool:
+        if self._state == "PENDING":
+            self._state = "CANCELLED"
+            return True
+        return self._state == "CANCELLED"
+
+    def add_done_callback(self, fn: Callable) -> None:
+        if self.done():
+            fn(self)
+        else:
+            self._callbacks.append(fn)
+
+
+class _SimExecutorBase:
+    _kind = "?"
+
+    def _init_base(self, n: int) -> None:
+        from . import simenv
+        env = simenv.current()
+        if env is None:
+            raise SimHarnessError("simulated executor used outside a simulated session")
+        self._env = env
+        self._futs: List[SimFuture] = []
+        self._shut = False
+
+    def _choose(self, n: int, what: str) -> int:
+        raise NotImplementedError
+
+    def _step(self) -> bool:
+        pend = [f for f in self._futs if f._state == "PENDING"]
+        if not pend:
+            return False
+        pend[self._choose(len(pend), "future_next")]._run_now()
+        return True
+
+    def _drain(self) -> None:
+        while self._step():
+            pass
+
+    def map(self, fn: Callable, *iterables: Iterable[Any], timeout: Any = None, chunksize: int = 1):
+        futs = [self.submit(fn, *args) for args in zip(*iterables)]
+
+        def gen():
+            for f in futs:
+                yield f.result()
+        return gen()
+
+    def __enter__(self):
+        return self
+
+    def __exit__(self, *exc: Any) -> None:
+        self.shutdown(wait=True)
+
+
+class SimExecutor(_SimExecutorBase):
+    """Facade for concurrent.futures.ProcessPoolExecutor on the SimPool core: every submitted call is one task of a
+    lock-step forked worker; the order in which submitted calls complete is the tape's."""
+    _kind = "process"
 
     def __init__(self, max_workers: Optional[int] = None, mp_context: Any = None,
                  initializer: Optional[Callable] = None, initargs: tuple = (), **kw: Any) -> None:
         self._pool = SimPool(max_workers, initializer, initargs)
+        self._init_base(self._pool._n)
 
-    def submit(self, fn: Callable, *args: Any, **kwargs: Any):
-        import concurrent.futures as cf
-        fut: cf.Future = cf.Future()
-        ar = self._pool.apply_async(fn, args, kwargs)
-        try:
-            fut.set_result(ar.get())
-        except BaseException as exc:  # noqa: BLE001
-            fut.set_exception(exc)
+    def _choose(self, n: int, what: str) -> int:
+        return self._pool._choose(n, what)
+
+    def submit(self, fn: Callable, *args: Any, **kwargs: Any) -> SimFuture:
+        if self._shut:
+            raise RuntimeError("cannot schedule new futures after shutdown")
+        pool = self._pool
+        pool._env.log("pool_call", pool=pool._pool_no, api="submit")
+
+        def run() -> Any:
+            res, _o, exc = pool._run_tasks(_ApplyCall(fn, kwargs), [tuple(args)], 1, True)
+            if exc is not None:
+                raise exc
+            return res[0]
+
+        fut = SimFuture(self, run)
+        self._futs.append(fut)
         return fut
 
-    def map(self, fn: Callable, *iterables: Iterable[Any], timeout: Any = None, chunksize: int = 1):
-        return iter(self._pool.starmap(fn, list(zip(*iterables)), chunksize))
-
     def shutdown(self, wait: bool = True, cancel_futures: bool = False) -> None:
+        self._shut = True
+        if cancel_futures:
+            for f in self._futs:
+                f.cancel()
+        self._drain()   # submitted work is carried out also with wait=False (only later)
         self._pool.terminate()
 
-    def __enter__(self) -> "SimExecutor":
+
+class SimThreadExecutor(_SimExecutorBase):
+    """Facade for concurrent.futures.ThreadPoolExecutor (and multiprocessing.pool.ThreadPool through SimThreadPool):
+    tasks share the caller's memory, as threads do, and run one at a time, each to completion, in the order the tape
+    decides. Granularity is the task: interleavings *inside* two tasks are not explored (stated in the evidence)."""
+    _kind = "thread"
+
+    def __init__(self, max_workers: Optional[int] = None, thread_name_prefix: str = "",
+                 initializer: Optional[Callable] = None, initargs: tuple = (), **kw: Any) -> None:
+        if max_workers is not None and max_workers <= 0:
+            raise ValueError("max_workers must be greater than 0")
+        self._init_base(max_workers or 4)
+        env = self._env
+        self._pool_no = env.next_pool_no()
+        self._tape = env.pool_tape(self._pool_no)
+        self._tape_pos = 0
+        self._initializer = initializer
+        self._initargs = initargs
+        self._initialised = False
+        env.log("pool_create", pool=self._pool_no, n=int(max_workers or 4), threads=True)
+
+    def _choose(self, n: int, what: str) -> int:
+        if n <= 1:
+            return 0
+        raw = self._tape[self._tape_pos] if self._tape_pos < len(self._tape) else 0
+        self._tape_pos += 1
+        c = raw % n
+        self._env.log("choice", pool=self._pool_no, what=what, n=n, c=c)
+        self._env.stats["choices"] += 1
+        return c
+
+    def submit(self, fn: Callable, *args: Any, **kwargs: Any) -> SimFuture:
+        if self._shut:
+            raise RuntimeError("cannot schedule new futures after shutdown")
+        self._env.log("pool_call", pool=self._pool_no, api="thread_submit")
+
+        def run() -> Any:
+            if not self._initialised:
+                self._initialised = True
+                if self._initializer is not None:
+                    self._initializer(*self._initargs)
+            self._env.stats["sched_steps"] += 1
+            return fn(*args, **kwargs)
+
+        fut = SimFuture(self, run)
+        self._futs.append(fut)
+        return fut
+
+    def shutdown(self, wait: bool = True, cancel_futures: bool = False) -> None:
+        self._shut = True
+        if cancel_futures:
+            for f in self._futs:
+                f.cancel()
+        self._drain()
+        order = [f._seq for f in self._futs if f._seq >= 0]
+        self._env.log("schedule", pool=self._pool_no, digest=hashlib.sha256(json.dumps(order).encode()).hexdigest()[:16],
+                      n_chunks=len(order), in_order=(order == sorted(order)), proxy_calls=0, interleaved=False)
+
+
+class SimThreadPool:
+    """multiprocessing.pool.ThreadPool / multiprocessing.dummy.Pool on the same task-granular scheduler."""
+
+    def __init__(self, processes: Optional[int] = None, initializer: Optional[Callable] = None, initargs: tuple = ()) -> None:
+        if processes is not None and processes < 1:
+            raise ValueError("Number of processes must be at least 1")
+        self._ex = SimThreadExecutor(processes, initializer=initializer, initargs=initargs)
+
+    def map(self, func, iterable, chunksize=None):
+        futs = [self._ex.submit(func, x) for x in iterable]
+        return [f.result() for f in futs]
+
+    def starmap(self, func, iterable, chunksize=None):
+        futs = [self._ex.submit(func, *x) for x in iterable]
+        return [f.result() for f in futs]
+
+    def imap(self, func, iterable, chunksize=1):
+        futs = [self._ex.submit(func, x) for x in iterable]
+        return (f.result() for f in futs)
+
+    def imap_unordered(self, func, iterable, chunksize=1):
+        futs = [self._ex.submit(func, x) for x in iterable]
+        return (f.result() for f in sim_as_completed(futs))
+
+    def apply(self, func, args=(), kwds=None):
+        return self._ex.submit(func, *args, **(kwds or {})).result()
+
+    def apply_async(self, func, args=(), kwds=None, callback=None, error_callback=None):
+        fut = self._ex.submit(func, *args, **(kwds or {}))
+
+        def cb(f: SimFuture) -> None:
+            if f._exc is not None:
+                if error_callback is not None:
+                    error_callback(f._exc)
+            elif callback is not None:
+                callback(f._value)
+        fut.add_done_callback(cb)
+        return _ThreadAsyncResult(fut)
+
+    def map_async(self, func, iterable, chunksize=None, callback=None, error_callback=None):
+        futs = [self._ex.submit(func, x) for x in iterable]
+        return _ThreadAsyncResult(None, futs, callback, error_callback)
+
+    def close(self):
+        pass
+
+    def join(self):
+        self._ex._drain()
+
+    def terminate(self):
+        self._ex.shutdown()
+
+    def __enter__(self):
         return self
 
-    def __exit__(self, *exc: Any) -> None:
-        self.shutdown()
+    def __exit__(self, *exc):
+        self.terminate()
+
+
+class _ThreadAsyncResult:
+    def __init__(self, fut: Optional[SimFuture], futs: Optional[List[SimFuture]] = None, callback=None, error_callback=None):
+        self._fut, self._futs, self._cb, self._ecb = fut, futs, callback, error_callback
+        self._fired = False
+
+    def get(self, timeout=None):
+        if self._fut is not None:
+            return self._fut.result()
+        try:
+            out = [f.result() for f in self._futs]
+        except BaseException as exc:  # noqa: BLE001
+            if self._ecb is not None and not self._fired:
+                self._fired = True
+                self._ecb(exc)
+            raise
+        if self._cb is not None and not self._fired:
+            self._fired = True
+            self._cb(out)
+        return out
+
+    def wait(self, timeout=None):
+        try:
+            self.get()
+        except BaseException:  # noqa: BLE001
+            pass
+
+    def ready(self):
+        self.wait()
+        return True
+
+    def successful(self):
+        try:
+            self.get()
+            return True
+        except BaseException:  # noqa: BLE001
+            return False
+
+
+def sim_as_completed(fs: Iterable[Any], timeout: Any = None):
+    """concurrent.futures.as_completed for simulated futures: pending tasks run in the order their executors' tapes
+    decide; results are handed out in completion order."""
+    fs = list(dict.fromkeys(fs))
+    sim = [f for f in fs if isinstance(f, SimFuture)]
+    other = [f for f in fs if not isinstance(f, SimFuture)]
+
+    def gen():
+        for f in other:
+            yield f
+        done = sorted([f for f in sim if f.done()], key=lambda f: f._seq)
+        for f in done:
+            yield f
+        rest = [f for f in sim if not f.done()]
+        while rest:
+            before = {id(f) for f in rest if f.done()}
+            # one scheduler step of one executor that still has pending work among the futures asked for
+            ex = rest[0]._ex
+            if not ex._step():
+                raise SimHarnessError("future neither done nor pending")
+            newly = sorted([f for f in rest if f.done() and id(f) not in before], key=lambda f: f._seq)
+            for f in newly:
+                yield f
+            rest = [f for f in rest if not f.done()]
+    return gen()
+
+
+def sim_wait(fs: Iterable[Any], timeout: Any = None, return_when: str = "ALL_COMPLETED"):
+    import concurrent.futures as cf
+    fs = list(dict.fromkeys(fs))
+    DoneAndNotDone = getattr(cf._base, "DoneAndNotDoneFutures")
+    sim = [f for f in fs if isinstance(f, SimFuture)]
+
+    def stop() -> bool:
+        if return_when == "FIRST_COMPLETED":
+            return any(f.done() for f in fs)
+        if return_when == "FIRST_EXCEPTION":
+            if any(isinstance(f, SimFuture) and f.done() and f._exc is not None for f in fs):
+                return True
+        return all(f.done() for f in fs)
+
+    while not stop():
+        pend = [f for f in sim if not f.done()]
+        if not pend or not pend[0]._ex._step():
+            break
+    done = {f for f in fs if f.done()}
+    return DoneAndNotDone(done, set(fs) - done)
+
+
+
+
+class SimThreads:
+    """threading.Thread under the task-granular scheduler: start() registers the thread, its run() is carried out -
+    on the caller's stack, to completion - when the scheduler picks it: at a join(), at a get() on an empty
+    queue.Queue, or at the end of the operation. The order among registered threads is the tape's."""
+
+    def __init__(self, env: Any) -> None:
+        self.env = env
+        self.pending: List[Any] = []
+        self.pool_no: Optional[int] = None
+        self.tape: List[int] = []
+        self.pos = 0
+        self.order: List[int] = []
+        self.n_started = 0
+
+    def start(self, th: Any) -> None:
+        if getattr(th, "_sim_state", None) is not None:
+            raise RuntimeError("threads can only be started once")
+        if self.pool_no is None:
+            self.pool_no = self.env.next_pool_no()
+            self.tape = self.env.pool_tape(self.pool_no)
+            self.pos = 0
+            self.env.log("pool_create", pool=self.pool_no, n=0, threads=True, raw=True)
+        th._sim_state = "pending"
+        th._sim_no = self.n_started
+        self.n_started += 1
+        self.pending.append(th)
+        self.env.log("pool_call", pool=self.pool_no, api="thread_start")
+
+    def step(self) -> bool:
+        if not self.pending:
+            return False
+        n = len(self.pending)
+        c = 0
+        if n > 1:
+            raw = self.tape[self.pos] if self.pos < len(self.tape) else 0
+            self.pos += 1
+            c = raw % n
+            self.env.log("choice", pool=self.pool_no, what="thread_next", n=n, c=c)
+            self.env.stats["choices"] += 1
+        th = self.pending.pop(c)
+        th._sim_state = "running"
+        self.env.stats["sched_steps"] += 1
+        self.order.append(th._sim_no)
+        try:
+            th.run()
+        except SystemExit:
+            pass
+        except BaseException as exc:  # noqa: BLE001 - as threading.excepthook: reported, the thread ends
+            self.env.log("thread_exception", exc=type(exc).__name__)
+        finally:
+            th._sim_state = "done"
+        return True
+
+    def join(self, th: Any) -> None:
+        while getattr(th, "_sim_state", None) == "pending":
+            self.step()
+
+    def drain(self) -> None:
+        while self.step():
+            pass
+        if self.pool_no is not None and self.order:
+            order = self.order
+            self.env.log("schedule", pool=self.pool_no, digest=hashlib.sha256(json.dumps(order).encode()).hexdigest()[:16],
+                         n_chunks=len(order), in_order=(order == sorted(order)), proxy_calls=0, interleaved=False)
+        self.pool_no = None
+        self.order = []
+        self.n_started = 0
